@@ -11,6 +11,7 @@ import Chewing.Driver.Util
     loader start  <dat> <uhash> => ok <dict entries> <dat after close> | err <dat after> | panic
     loader cstart <dat> <uhash> => ok <dat after close> | null <dat after> | abort
     loader learn  <dat> <entry> => <dat after close>
+    loader sqlstart <rows of the legacy chewing.sqlite3> => ok <dict entries> <dat after close> | err
     loader encbin <lifetime bytes> G:<stored records> => <file bytes> valid|invalid <live records>
     walk entries <index bytes> <dataLen> <leaf table>                    => ok <n> <syls>/<phrase>… | panic | hang
     walk lookup  <index bytes> <dataLen> <leaf table> <s|f> <first> <q>  => ok <n> <phrase>…        | panic | hang
@@ -87,6 +88,18 @@ def loaderExpected (fn : String) (args : List String) : Option String :=
            | .error _ => "null " ++ datS l.dir.chewingDat)
         | .panic _ => "abort"
         | .outOfFuel => "hang")
+  | "sqlstart", [rows] =>
+    match datOf rows with
+    | some (some (.valid es)) =>
+      let rs : List Uhash.Rec := es.map fun e => { syls := e.1.1, phrase := e.1.2, freq := e.2.1, time := e.2.2 }
+      some (match Loader.load true { chewingDat := none, uhashDat := none, sqlite := some (some rs) } with
+        | .ok l =>
+          (match l.dict with
+           | .ok m => "ok " ++ mapS m ++ " " ++ datS l.dir.chewingDat
+           | .error _ => "err")
+        | .panic _ => "panic"
+        | .outOfFuel => "hang")
+    | _ => none
   | "encbin", [lt, gs] =>
     let rs := (splitNonEmpty (gs.drop 2).toString ";").map grecOf
     if rs.all Option.isSome then
